@@ -434,7 +434,8 @@ impl LogReader {
         self.dropped_bytes
     }
 
-    /// Returns true if the log ended with a partially written physical record.
+    /// Returns true if the log ended with a partially written physical record or with an unfinished
+    /// fragmented record.
     pub fn has_partial_tail(&self) -> bool {
         self.has_partial_tail
     }
@@ -470,7 +471,16 @@ impl LogReader {
             if let Err(physical_read_err) = maybe_record {
                 if let LogIOError::IO(db_io_error) = &physical_read_err {
                     match db_io_error.kind() {
-                        ErrorKind::UnexpectedEof => return Ok((vec![], true)),
+                        ErrorKind::UnexpectedEof => {
+                            if in_fragmented_record {
+                                // The writer died between two fragments of a record. The
+                                // unfinished record is a torn tail just like a partially written
+                                // physical record: nothing may be appended after it.
+                                self.has_partial_tail = true;
+                            }
+
+                            return Ok((vec![], true));
+                        }
                         _ => return Err(physical_read_err),
                     }
                 }
